@@ -77,6 +77,16 @@ func (x *Enc) havocAll(h Heap, reach Term) Heap {
 			nh.m[k] = x.hget(h, k)
 		}
 	}
+	// stated assumption of the contract (havoc_preserves): uncontracted callees do not write these struct types
+	if x.con != nil {
+		for _, k := range sortedKeys(x.keys) {
+			for _, tn := range x.con.HavocPreserves {
+				if strings.HasPrefix(k, "F:") && strings.Contains(k, tn+":") {
+					nh.m[k] = x.hget(h, k)
+				}
+			}
+		}
+	}
 	// frame: local (non-escaping) allocations keep their contents
 	for _, la := range x.localAllocs {
 		for _, k := range la.keys {
